@@ -3,6 +3,7 @@ use crate::engine::*;
 use crate::keys;
 use crate::proto::*;
 use crate::proto::KeyMaterial;
+use rusty_paseto::core::Key;
 use serde::{Deserialize, Serialize};
 use serde_json::json;
 use std::collections::HashSet;
@@ -596,8 +597,87 @@ pub fn shape_cases(pad_max: u32, claims_max: u16) -> Vec<ShapeCase> {
   v
 }
 
+// ---------------------------------------------------------------- the nonce material itself
+
+/// N draws of the random material the local builders turn into a nonce (`Key::<24>::try_new_random()` for v2.local,
+/// `Key::<32>::try_new_random()` for v1 / v3 / v4): v1 and v2 hash that material with the message, so a token shows a
+/// varying nonce field even when part of the material is constant - the material is observed where the builders draw it.
+#[derive(Clone, Debug, Serialize, Deserialize)]
+pub struct MaterialHistory {
+  pub size: u16,
+  pub n: u32,
+}
+
+pub struct Material;
+
+fn draw(size: u16) -> Result<Vec<u8>, String> {
+  match size {
+    24 => Key::<24>::try_new_random().map(|k| k.as_ref().to_vec()).map_err(|e| format!("{e:?}")),
+    _ => Key::<32>::try_new_random().map(|k| k.as_ref().to_vec()).map_err(|e| format!("{e:?}")),
+  }
+}
+
+impl Sub for Material {
+  type Case = MaterialHistory;
+  fn name(&self) -> String {
+    "C10/nonce-material".into()
+  }
+  fn check(&self, c: &MaterialHistory, cl: &mut Classes) -> Verdict {
+    let size = if c.size == 24 { 24usize } else { 32 };
+    let n = c.n.min(2_000_000);
+    let mut seen: HashSet<Vec<u8>> = HashSet::new();
+    let mut windows: HashSet<[u8; 8]> = HashSet::new();
+    let mut ones = vec![0u32; size * 8];
+    let mut byte_values = vec![[false; 256]; size];
+    for i in 0..n {
+      let m = match draw(size as u16) {
+        Ok(m) => m,
+        Err(e) => vio!("C10:nonce-material:draw-failed:{}", size; "draw #{} of Key::<{}>::try_new_random() failed: {}", i + 1, size, e),
+      };
+      if m.len() != size {
+        vio!("C10:nonce-material:length:{}", size; "Key::<{}>::try_new_random() handed out {} bytes", size, m.len());
+      }
+      for (j, b) in m.iter().enumerate() {
+        byte_values[j][*b as usize] = true;
+        for bit in 0..8 {
+          if b & (1 << bit) != 0 {
+            ones[j * 8 + bit] += 1;
+          }
+        }
+      }
+      for w in m.windows(8) {
+        let mut a = [0u8; 8];
+        a.copy_from_slice(w);
+        if !windows.insert(a) {
+          vio!("C10:nonce-material:window-repeated:{}", size; "bytes {} of draw #{} ({}) of Key::<{}>::try_new_random() already occurred in the material handed out before", hex::encode(a), i + 1, hex::encode(&m), size);
+        }
+      }
+      if !seen.insert(m.clone()) {
+        vio!("C10:nonce-material:repeated:{}", size; "draw #{} of Key::<{}>::try_new_random() repeats an earlier one: {}", i + 1, size, hex::encode(&m));
+      }
+    }
+    cl.tag(format!("material:{}-bytes", size));
+    cl.nontrivial(n >= 1000);
+    if n >= 1000 {
+      let bound = (30.0 * n as f64).sqrt();
+      for (pos, k) in ones.iter().enumerate() {
+        if ((*k as f64) - (n as f64) / 2.0).abs() > bound {
+          vio!("C10:nonce-material:bit-not-uniform:{}", size; "bit {} of byte {} of Key::<{}>::try_new_random() is 1 in {} of {} draws (allowed {:.0} +- {:.0})", pos % 8, pos / 8, size, k, n, n as f64 / 2.0, bound);
+        }
+      }
+      for (j, seen) in byte_values.iter().enumerate() {
+        let distinct = seen.iter().filter(|b| **b).count();
+        if distinct < 128 {
+          vio!("C10:nonce-material:byte-position-constant:{}", size; "byte {} of Key::<{}>::try_new_random() takes only {} distinct values over {} draws", j, size, distinct, n);
+        }
+      }
+    }
+    Verdict::Pass
+  }
+}
+
 pub fn subs() -> Vec<Box<dyn DynSub>> {
-  vec![Box::new(Shapes), Box::new(Freshness), Box::new(AcrossFork), Box::new(Concurrent), Box::new(RngFailure)]
+  vec![Box::new(Shapes), Box::new(Freshness), Box::new(AcrossFork), Box::new(Concurrent), Box::new(RngFailure), Box::new(Material)]
 }
 
 pub fn run(ctx: &Ctx) -> EvidenceMeta {
@@ -645,6 +725,11 @@ pub fn run(ctx: &Ctx) -> EvidenceMeta {
   let per_thread = ctx.n(2500, 12_000) as u32;
   let conc_cases: Vec<ConcurrentHistory> = Proto::LOCAL.iter().flat_map(|proto| [(Layer::Generic, 8u8), (Layer::Prelude, 16u8)].into_iter().map(move |(layer, threads)| ConcurrentHistory { proto: *proto, layer, threads, per_thread })).collect();
   jobs.push(Box::new(move || ctx.enumerate(cc, conc_cases.into_iter(), false)));
+  // the random material the builders draw, observed directly (v1 / v2 hash it into the nonce field)
+  let mt = &Material;
+  for size in [24u16, 32] {
+    jobs.push(Box::new(move || ctx.enumerate(mt, std::iter::once(MaterialHistory { size, n }), false)));
+  }
   run_jobs(jobs);
   let builds = BUILDS.load(std::sync::atomic::Ordering::Relaxed);
   let distinct = DISTINCT.load(std::sync::atomic::Ordering::Relaxed);
@@ -663,6 +748,7 @@ pub fn run(ctx: &Ctx) -> EvidenceMeta {
            Concurrent histories: 8 / 16 threads released by a barrier build 2500 (thorough 12 000) tokens each at the same time under one key - no nonce twice in the union. \
            Histories with a failing random source: getrandom() serves 0 / 1 / 5 key-sized requests and then fails for good (LD_PRELOAD fault injection in a helper process); whatever the builder then does, the tokens it still returns carry pairwise different, non-zero nonces; the same with a source that never fails but serves unusual, pairwise different outputs (leading / trailing zero bytes, all ones, all zeros around a counter): every build succeeds and the nonces stay pairwise different. \
            Histories across fork(): pre in {{0,1,7}} builds, then the process forks and parent and child each build 50/200 more under the same key - no nonce may occur twice in the union. \
+           The nonce MATERIAL itself: N draws of Key::<24>::try_new_random() (v2.local) and Key::<32>::try_new_random() (v1/v3/v4) - what the builders hash (v1, v2) or use (v3, v4) as the nonce - under the same invariant: pairwise distinct, no 8-byte window twice, every bit position within the Hoeffding bound, every byte position >= 128 distinct values. \
            An 'evaluation' is one history; builds_total / distinct_nonces_total count the builds. Non-trivial = N >= 1000; distinct by (version, builder, mode)."),
     assumptions: vec!["observes the OS random generator (that is the property); 'unpredictable' is not decidable by observation - a weak but equidistributed generator passes".into()],
   }
